@@ -45,11 +45,11 @@ func init() {
 			uIF := c.field("Association", "useIForwardTSN")
 			isI := c.Fn("chunkPayloadData.isIData")
 			type tc struct {
-				fn      string
-				wrong   CondPat // established fact on the wrong-kind edge
-				right   CondPat
-				findIf  func(*ssa.If) (bool, int) // recognise the test, return wrong-kind successor index
-				what    string
+				fn     string
+				wrong  CondPat // established fact on the wrong-kind edge
+				right  CondPat
+				findIf func(*ssa.If) (bool, int) // recognise the test, return wrong-kind successor index
+				what   string
 			}
 			cases := []tc{
 				{"Association.handleData",
